@@ -340,7 +340,12 @@ def _tree_to_sbml(
     return _handle_body(tree.body)
 
 
-def _sbmlify_fn(fn: Callable, user_args: list[str]) -> libsbml.ASTNode:
+def _sbmlify_fn(
+    fn: Callable, user_args: list[str], ids: dict[str, str] | None = None
+) -> libsbml.ASTNode:
+    if ids is not None:
+        # The math has to refer to the ids under which the components are written
+        user_args = [ids.get(arg, arg) for arg in user_args]
     return _tree_to_sbml(get_fn_ast(fn), args=user_args)
 
 
@@ -360,6 +365,22 @@ def _convert_id_to_sbml(id_: str, prefix: str) -> str:
     if not new_id[0].isalpha():
         return f"{prefix}_{new_id}"
     return new_id
+
+
+def _sbml_ids(model: Model) -> dict[str, str]:
+    """Ids under which the components of the model are written to the document."""
+    ids: dict[str, str] = {}
+    for name in model.get_raw_parameters():
+        ids[name] = _convert_id_to_sbml(id_=name, prefix="PAR")
+    for name in model.get_derived_parameters():
+        ids[name] = _convert_id_to_sbml(id_=name, prefix="AR")
+    for name in model.get_raw_variables():
+        ids[name] = _convert_id_to_sbml(id_=name, prefix="CPD")
+    for name in model.get_derived_variables():
+        ids[name] = _convert_id_to_sbml(id_=name, prefix="AR")
+    for name in model.get_raw_reactions():
+        ids[name] = _convert_id_to_sbml(id_=name, prefix="RXN")
+    return ids
 
 
 def _create_sbml_document() -> libsbml.SBMLDocument:
@@ -461,6 +482,7 @@ def _create_sbml_variables(
         sbml_model : libsbml.Model
 
     """
+    ids = _sbml_ids(model)
     for name, variable in model.get_raw_variables().items():
         cpd = sbml_model.createSpecies()
         cpd.setId(_convert_id_to_sbml(id_=name, prefix="CPD"))
@@ -474,19 +496,20 @@ def _create_sbml_variables(
             ar = sbml_model.createInitialAssignment()
             ar.setId(_convert_id_to_sbml(id_=name, prefix="IA"))
             ar.setName(_convert_id_to_sbml(id_=name, prefix="IA"))
-            ar.setSymbol(_convert_id_to_sbml(id_=name, prefix="IA"))
-            ar.setMath(_sbmlify_fn(init.fn, init.args))
+            ar.setSymbol(_convert_id_to_sbml(id_=name, prefix="CPD"))
+            ar.setMath(_sbmlify_fn(init.fn, init.args, ids))
         else:
             cpd.setInitialConcentration(float(init))
 
 
 def _create_sbml_derived_variables(*, model: Model, sbml_model: libsbml.Model) -> None:
+    ids = _sbml_ids(model)
     for name, dv in model.get_derived_variables().items():
         sbml_ar = sbml_model.createAssignmentRule()
         sbml_ar.setId(_convert_id_to_sbml(id_=name, prefix="AR"))
         sbml_ar.setName(_convert_id_to_sbml(id_=name, prefix="AR"))
         sbml_ar.setVariable(_convert_id_to_sbml(id_=name, prefix="AR"))
-        sbml_ar.setMath(_sbmlify_fn(dv.fn, dv.args))
+        sbml_ar.setMath(_sbmlify_fn(dv.fn, dv.args, ids))
         # cpd.setUnit() # FIXME: implement
 
 
@@ -494,13 +517,14 @@ def _create_derived_parameter(
     sbml_model: libsbml.Model,
     name: str,
     dp: Derived,
+    ids: dict[str, str],
 ) -> None:
     """Create a derived parameter for the sbml model."""
     ar = sbml_model.createAssignmentRule()
     ar.setId(_convert_id_to_sbml(id_=name, prefix="AR"))
     ar.setName(_convert_id_to_sbml(id_=name, prefix="AR"))
     ar.setVariable(_convert_id_to_sbml(id_=name, prefix="AR"))
-    ar.setMath(_sbmlify_fn(dp.fn, dp.args))
+    ar.setMath(_sbmlify_fn(dp.fn, dp.args, ids))
     # cpd.setUnit() # FIXME: implement
 
 
@@ -516,6 +540,7 @@ def _create_sbml_parameters(
         sbml_model : libsbml.Model
 
     """
+    ids = _sbml_ids(model)
     for name, value in model.get_raw_parameters().items():
         k = sbml_model.createParameter()
         k.setId(_convert_id_to_sbml(id_=name, prefix="PAR"))
@@ -525,15 +550,16 @@ def _create_sbml_parameters(
             ar = sbml_model.createInitialAssignment()
             ar.setId(_convert_id_to_sbml(id_=name, prefix="IA"))
             ar.setName(_convert_id_to_sbml(id_=name, prefix="IA"))
-            ar.setSymbol(_convert_id_to_sbml(id_=name, prefix="IA"))
-            ar.setMath(_sbmlify_fn(init.fn, init.args))
+            ar.setSymbol(_convert_id_to_sbml(id_=name, prefix="PAR"))
+            ar.setMath(_sbmlify_fn(init.fn, init.args, ids))
         else:
             k.setValue(float(init))
 
 
 def _create_sbml_derived_parameters(*, model: Model, sbml_model: libsbml.Model) -> None:
+    ids = _sbml_ids(model)
     for name, dp in model.get_derived_parameters().items():
-        _create_derived_parameter(sbml_model, name, dp)
+        _create_derived_parameter(sbml_model, name, dp, ids)
 
 
 def _create_sbml_reactions(
@@ -543,6 +569,7 @@ def _create_sbml_reactions(
 ) -> None:
     """Create the reactions for the sbml model."""
     n_references: dict[str, int] = {}
+    ids = _sbml_ids(model)
     for name, rxn in model.get_raw_reactions().items():
         sbml_rxn = sbml_model.createReaction()
         sbml_rxn.setId(_convert_id_to_sbml(id_=name, prefix="RXN"))
@@ -569,12 +596,12 @@ def _create_sbml_reactions(
                     reference = f"{compound_id}ref"
                     if n_references[compound_id] > 1:
                         reference = f"{reference}{n_references[compound_id]}"
-                    _create_derived_parameter(sbml_model, reference, factor)
+                    _create_derived_parameter(sbml_model, reference, factor, ids)
 
                     # The sign of a computed coefficient is only known at run time:
                     # a product keeps the sign of the rule's value (a reactant would negate it)
                     sref = sbml_rxn.createProduct()
-                    sref.setId(_convert_id_to_sbml(id_=reference, prefix="CPD"))
+                    sref.setId(_convert_id_to_sbml(id_=reference, prefix="AR"))
                     sref.setSpecies(_convert_id_to_sbml(id_=compound_id, prefix="CPD"))
                 case _:
                     msg = f"Stoichiometry type {type(factor)} not supported"
@@ -583,7 +610,7 @@ def _create_sbml_reactions(
             sref = sbml_rxn.createModifier()
             sref.setSpecies(_convert_id_to_sbml(id_=compound_id, prefix="CPD"))
 
-        sbml_rxn.createKineticLaw().setMath(_sbmlify_fn(rxn.fn, rxn.args))
+        sbml_rxn.createKineticLaw().setMath(_sbmlify_fn(rxn.fn, rxn.args, ids))
 
 
 def _model_to_sbml(
